@@ -16,7 +16,7 @@ echo "demo without patch: $base"; echo "suite with patch: $suite"; echo "demo wi
 git -C /repo apply $wt/out/${L}.patch || exit 2
 res=""
 for p in "$@"; do n=$(/verif/check $p | grep -c VIOLATION); res="$res $p:$n"; done
-git -C /repo checkout -- .
+git -C /repo checkout -- . ; git -C /repo clean -fdq -- src
 echo "checks (violation lines):$res"
 d=/verif/seeded/$id; mkdir -p $d; cp $wt/out/${L}.patch $d/patch.diff; cp $wt/out/${L}_demo.rs $d/demo.rs; cp $wt/out/${L}_notes.txt $d/notes.txt
 python3 - "$d" "$id" "$base" "$suite" "$withp" "$res" "$@" <<'PY'
